@@ -1,5 +1,5 @@
 import PoolProofs.C20Lemmas
-import PoolProofs.C08I2Lemmas
+import PoolProofs.C08I2Pres
 /-!
 # C20 — recovery restores a spendable account and never moves funds
 
